@@ -158,9 +158,6 @@ func (commander *Commander) exec(ctx context.Context, parameters Parameters, scr
 			WithReference(script.Reference)
 
 		log := logComputer(tx, result.AccountMetadata)
-		if parameters.IdempotencyKey != "" {
-			log = log.WithIdempotencyKey(parameters.IdempotencyKey)
-		}
 
 		return executionContext.AppendLog(ctx, log, tx)
 	})
